@@ -41,7 +41,7 @@ inline std::string diag_str(const OpResult &o)
 {
 	std::string s;
 	for (auto &d : o.diags)
-		s += d.file + ":" + std::to_string(d.line) + ",";
+		s += d.file + ":" + std::to_string(d.line) + ":" + esc(d.msg) + ",";
 	return s;
 }
 
